@@ -19,6 +19,10 @@ use verif_harness::{SplitMix, Toks, for_each_case};
 fn unhex(s: &str) -> Vec<u8> {
     if s == "-" { Vec::new() } else { hex::decode(s).expect("hex") }
 }
+/// passwords travel as hex tokens ("-" = empty) so that they may contain white space
+fn pw(s: &str) -> String {
+    String::from_utf8(unhex(s)).expect("password is not UTF-8")
+}
 fn hx(b: &[u8]) -> String {
     if b.is_empty() { "-".to_string() } else { hex::encode(b) }
 }
@@ -179,7 +183,7 @@ fn case_nonces(t: &mut Toks) -> String {
 /// key file: generate with PASS, open with PASS and with wrong passwords
 fn case_kf(t: &mut Toks) -> String {
     let k = key_bytes(t.u());
-    let pass = t.s();
+    let pass = &pw(t.s());
     let nw = t.u();
     let (id, data) = hk::keyfile_generate(&k, pass).unwrap();
     let idok = hk::hash_id(&data) == id;
@@ -192,7 +196,7 @@ fn case_kf(t: &mut Toks) -> String {
     };
     let mut wrong = Vec::new();
     for _ in 0..nw {
-        wrong.push(match hk::keyfile_open(&data, t.s()) {
+        wrong.push(match hk::keyfile_open(&data, &pw(t.s())) {
             Ok(m) if m == k => "ok".to_string(),
             Ok(_) => "diff".to_string(),
             Err(c) => c.to_string(),
@@ -591,7 +595,7 @@ fn case_e2e(t: &mut Toks) -> anyhow::Result<String> {
     Ok(serde_json::Value::Object(res).to_string())
 }
 
-/// key-management history: `keys SEED INIT op*` with INIT = im | ip:<pass>; ops a:<pass> (add_key),
+/// key-management history: `keys SEED INIT op*` with INIT = im | ip:<pass>; ops a:<pass> (add_key; passwords are hex tokens, "-" = empty),
 /// d:<n> (delete the n-th key file added, 0 = the init key), dc:<pass> (open with pass and try to
 /// delete the key used), o:<pass> (open), m:<0|1> (open with the right / a wrong master key)
 fn case_keys(t: &mut Toks) -> anyhow::Result<String> {
@@ -603,7 +607,7 @@ fn case_keys(t: &mut Toks) -> anyhow::Result<String> {
     let master = MasterKey::new();
     let mut added: Vec<Option<KeyId>> = Vec::new();
     let repo = if let Some(p) = init.strip_prefix("ip:") {
-        let rp = Repository::new(&repo_opts(), &bes)?.init(&Credentials::password(p), &KeyOptions::default(), &cfg)?;
+        let rp = Repository::new(&repo_opts(), &bes)?.init(&Credentials::password(pw(p)), &KeyOptions::default(), &cfg)?;
         added.push(*rp.key_id());
         rp
     } else {
@@ -621,9 +625,11 @@ fn case_keys(t: &mut Toks) -> anyhow::Result<String> {
     };
     while let Some(op) = t.opt_s() {
         let (k, arg) = op.split_once(':').unwrap();
+        // a / dc / o carry a password (hex), d / m a number
+        let pass = if matches!(k, "a" | "dc" | "o") { pw(arg) } else { String::new() };
         match k {
             "a" => {
-                let id = repo.add_key(arg, &KeyOptions::default())?;
+                let id = repo.add_key(&pass, &KeyOptions::default())?;
                 added.push(Some(id));
                 out.push("a=ok".to_string());
             }
@@ -636,7 +642,7 @@ fn case_keys(t: &mut Toks) -> anyhow::Result<String> {
                 out.push(format!("d={r}"));
             }
             "dc" => {
-                let r = match Repository::new(&repo_opts(), &bes)?.open(&Credentials::password(arg)) {
+                let r = match Repository::new(&repo_opts(), &bes)?.open(&Credentials::password(&pass)) {
                     Ok(rp) => match *rp.key_id() {
                         Some(id) => cls(rp.delete_key(&id)),
                         None => "nokey".to_string(),
@@ -646,7 +652,7 @@ fn case_keys(t: &mut Toks) -> anyhow::Result<String> {
                 out.push(format!("dc={r}"));
             }
             "o" => {
-                let r = match Repository::new(&repo_opts(), &bes)?.open(&Credentials::password(arg)) {
+                let r = match Repository::new(&repo_opts(), &bes)?.open(&Credentials::password(&pass)) {
                     Ok(rp) => {
                         if master_bytes(&rp.key()) == master_bytes(&real_master) { "ok".to_string() } else { "diffkey".to_string() }
                     }
